@@ -61,6 +61,7 @@ type c06world struct {
 	customPanic int
 	customFatal int
 	termMsg     string
+	blank       bool // blank message through the std-log bridge: only the action is judged
 	termLevel   zapcore.Level
 	judged      bool
 }
@@ -76,7 +77,7 @@ func (h c06custom) OnWrite(ce *zapcore.CheckedEntry, _ []zapcore.Field) {
 	} else {
 		h.w.customPanic++
 	}
-	if ce.Message != h.w.termMsg && !strings.HasPrefix(ce.Message, h.w.termMsg) {
+	if !h.w.blank && ce.Message != h.w.termMsg && !strings.HasPrefix(ce.Message, h.w.termMsg) {
 		h.w.c.Fail("C06: the terminal hook received a different entry", "hook got %q, the call logged %q", ce.Message, h.w.termMsg)
 	}
 	// the crash instant
@@ -208,6 +209,11 @@ func runC06(c *Ctx) {
 	}
 	w.termLevel = lvl
 	w.termMsg = "terminal-entry"
+	if front == c6Std && g.Chance(3) {
+		// log.Print("") / Println(): the bridge still has to make the call
+		w.termMsg = pick(g, "", " ", "\n", " \t ")
+		w.blank = true
+	}
 	nOthers := g.Weighted(3, 2, 1)
 	preLines := g.Draw(3)
 	c.Describe("annot=%d callerSkip=%d", annot, skip)
@@ -288,7 +294,7 @@ func runC06(c *Ctx) {
 				c.Fail("C06: a Panic-level call did not panic", "%s: the call returned=%v", desc, returned)
 				return
 			}
-			if s, ok := recovered.(string); !ok || !strings.HasPrefix(s, w.termMsg) {
+			if s, ok := recovered.(string); !ok || (!w.blank && !strings.HasPrefix(s, w.termMsg)) {
 				c.Fail("C06: the default panic does not carry the message", "%s: panic value %v", desc, recovered)
 				return
 			}
@@ -382,6 +388,9 @@ func (w *c06world) judgeSinks(when string) {
 
 func (w *c06world) judgeOne(lf *c06leaf, synced []byte, when string) {
 	c := w.c
+	if w.blank {
+		return
+	}
 	if lf.faulty {
 		for k, v := range lf.sink.Fired {
 			c.Faults[k] += v
